@@ -175,13 +175,27 @@ ExhaustiveIffWildUseless(M, t) ==
 
 \* the compiler's second flavour of the warning is sound: everything below an irrefutable arm is dead
 BelowCatchAllDead(M, t) ==
-    \A i \in DOMAIN M : Irrefutable(M[i]) => \A j \in (i + 1)..Len(M) : ~Reachable(M, j, t)
+    LET dead == Unreachable(M, t) IN
+    \A i \in DOMAIN M : Irrefutable(M[i]) => (i + 1)..Len(M) \subseteq dead
 
-\* Arm is total exactly on exhaustive matrices, and an arm is reachable iff it is some value's Arm
-ArmTotalIffExhaustive(M, t) ==
-    Exhaustive(M, t) <=> \A v \in AbsVal(t, M) : Arm(M, v) \in DOMAIN M
-ReachableIffRuns(M, t) ==
-    \A i \in DOMAIN M : Reachable(M, i, t) <=> \E v \in AbsVal(t, M) : Arm(M, v) = i
+(***************************************************************************)
+(* One-pass evaluation (used by the trace validator and the record         *)
+(* printer): the rows matching each abstract value; everything else is     *)
+(* read off that table.  TableIsDefinitional, checked by TLC on every      *)
+(* enumerated matrix, says the shortcuts are the definitions above; its    *)
+(* second conjunct is also the statement "an arm is reachable iff it is    *)
+(* the arm that runs on some value".                                       *)
+(***************************************************************************)
+Table(M, t) == [v \in AbsVal(t, M) |-> MatchSet(M, v)]
+TExh(tb) == \A v \in DOMAIN tb : tb[v] # {}
+TArm(tb, v) == IF tb[v] = {} THEN 0 ELSE Min(tb[v])
+TUnreach(M, tb) == DOMAIN M \ { TArm(tb, v) : v \in DOMAIN tb }
+
+TableIsDefinitional(M, t) ==
+    LET tb == Table(M, t) IN
+    /\ TExh(tb) = Exhaustive(M, t)
+    /\ TUnreach(M, tb) = Unreachable(M, t)
+    /\ \A v \in DOMAIN tb : TArm(tb, v) = Arm(M, v)
 
 \* the pattern denoting exactly one (abstract) value: a witness of this shape always exists
 RECURSIVE PatOf(_, _)
